@@ -1062,6 +1062,21 @@ class Summariser:
                 and not node.orelse and os.environ.get("SA_NO_UNBOUNDED_CANON") != "1":
             # `for i in itertools.count(): body` is `while True: body` with i the 0-based iteration index: one representation for both spellings
             return self.s_While(node, st, unbounded_for=it)
+        if it[0] in ("tuple", "list") and 1 <= len(it[1]) <= 4 and not node.orelse and not any(x[0] == "star" for x in it[1]) \
+                and os.environ.get("SA_NO_UNROLL") != "1":
+            # a loop over a literal tuple of a few items is its body written out once per item
+            states = [(st, ("normal",))]
+            for elem in it[1]:
+                nxt = []
+                for s_, o_ in states:
+                    if o_[0] != "normal":
+                        nxt.append((s_, o_))
+                        continue
+                    self.assign(node.target, elem, s_, node)
+                    for s2, o2 in self.block(node.body, s_):
+                        nxt.append((s2, ("normal",) if o2[0] == "continue" else o2))
+                states = nxt
+            return [(s_, ("normal",) if o_[0] == "break" else o_) for s_, o_ in states]
         lid = st.tick("loop")
         self.emit(st, "LOOP", {"lid": lid, "iter": it, "kind": "for"}, node)
         results = []
@@ -1600,6 +1615,25 @@ class Summariser:
 
     def call_value(self, fterm, args, kws, node, st):
         t = ("call", fterm, args, kws)
+        if fterm[0] == "closure" and not kws and os.environ.get("SA_NO_PREDICATE_INLINE") != "1":
+            # a local one-line predicate (`def isprivate(k): return isinstance(k, str) and k.startswith("_")`) is its expression
+            cfi = next((c for c in st.closures.values() if isinstance(c, FuncInfo) and c.qual == fterm[1]), None)
+            if cfi is not None:
+                body = [b for b in cfi.node.body if not (isinstance(b, ast.Expr) and isinstance(b.value, ast.Constant))]
+                a_ = cfi.node.args
+                names = [x.arg for x in a_.posonlyargs + a_.args]
+                if len(body) == 1 and isinstance(body[0], ast.Return) and body[0].value is not None and _pure_expr(body[0].value) and len(names) == len(args) \
+                        and not a_.vararg and not a_.kwarg and not a_.kwonlyargs and not a_.defaults and not cfi.node.decorator_list:
+                    sub = st.fork()
+                    for nm, v in zip(names, args):
+                        sub.env[nm] = v
+                    n_ev = len(sub.events)
+                    try:
+                        r = self.expr(body[0].value, sub)
+                    except AnalysisError:
+                        r = None
+                    if r is not None and len(sub.events) == n_ev:
+                        return r
         if fterm[0] == "closure":
             self.emit(st, "CALL", {"func": fterm, "args": args, "kw": kws, "res": t, "callee": "closure"}, node)
         else:
